@@ -11,6 +11,7 @@ from typing import Any, Dict, List, Optional, Tuple
 
 
 from .canon import canonicalise
+from .inline import inline_new_helpers
 
 class AnalysisError(Exception):
     """The analyser (not the analysed code) needs attention: exit code 2."""
@@ -99,6 +100,7 @@ class Program:
             p = os.path.join(repo, d)
             if os.path.isdir(p):
                 self._load(p, d)
+        self.inlined_helpers: List[str] = inline_new_helpers({k: v.tree for k, v in self.modules.items()})
         for m in self.modules.values():
             self._collect(m)
         self._fold_all_consts()
